@@ -391,6 +391,17 @@ func replayCase(cs Case) string {
 		var fb, sb bool
 		fmt.Sscan(cs.Path, &fb, &sb)
 		return resetOne(cs.L, cs.FailAt, fb, sb)
+	case "scalar-fault":
+		if cs.Value >= 0 && cs.Value < len(scalarSlices()) {
+			return scalarFaultOne(cs.Value, cs.FailAt, cs.Path == "true")
+		}
+		return ""
+	case "v1-stream":
+		strs := []string{"", " ", "\t", "  ", ">"}
+		if cs.Value >= 0 && cs.Value < 7 && cs.L >= 0 && cs.L/10 < len(strs) && cs.L%10 < len(strs) {
+			return v1StreamOne(cs.Value, strs[cs.L/10], strs[cs.L%10], cs.Path == "true")
+		}
+		return ""
 	case "small-value":
 		var oi int
 		fmt.Sscan(cs.OptSet, &oi)
@@ -560,5 +571,7 @@ func Run(r *evid.Run) {
 	sequences(r)
 	resets(r)
 	smallValues(r)
+	scalarFaults(r)
+	v1Streams(r)
 	_ = io.EOF
 }
